@@ -7,7 +7,7 @@ import os
 import tempfile
 
 from .. import common, gen
-from ..common import cps, uncps, classify
+from ..common import rec, cps, uncps, classify
 from ..simpleprop import SimpleProperty
 
 PD = ["compress", "expand", "standardize_prefix", "standardize_curie", "standardize_uri"]
@@ -35,13 +35,22 @@ class C16(SimpleProperty):
             "index, target column (data frames: same, other existing, new), header yes/no and separator tab or ',' "
             "(files). Expected cells come from the scalar method of the implementation itself, cell by cell; for file "
             "operations the bytes before and after are compared when the call raises (the first failing row sits at a "
-            "random position). Non-trivial = some cell converts and some does not, or the call raises. 40 % of the converters are long-lived (built from a part of the records, used for the same bulk operation once, then extended by new records and merges); data frames carry a reversed, gapped, labelled or repeated index in half of the cases; the characters of the file before and after the call are compared with the csv model.")
+            "random position). Non-trivial = some cell converts and some does not, or the call raises. 40 % of the converters are long-lived (built from a part of the records, used for the same bulk operation once, then extended by new records and merges); data frames carry a reversed, gapped, labelled or repeated index in half of the cases; the characters of the file before and after the call are compared with the csv model. 10 % of the cases exercise the csv layer alone (harness/csvlayer.py: arbitrary text through csv.reader and the modelled reader, arbitrary tables through csv.writer and the modelled writer, four delimiters), and every text of length <= 6 (thorough: 8) over {delimiter, quote, CR, LF, 'a', ' '} and every table of <= 2 x 2 cells is compared on every run.")
     assumptions = ["pandas Series.map and the csv module store and deliver the cells (exercised on real data frames and files)"]
 
     def budget(self, tier):
         return 600 if tier == "quick" else 12000
 
+    def exhaustive(self, tier):
+        from .. import csvlayer
+
+        return csvlayer.exhaustive(tier)
+
     def gen(self, rng, tier):
+        if rng.random() < 0.1:
+            # the csv layer on its own: CPython's csv against Model/Csv.lean on arbitrary text and arbitrary tables
+            from .. import csvlayer
+            return {"csv": csvlayer.gen_case(rng), "tags": ["csv-layer"], "nontrivial": True}
         delim = rng.choice([":", ":", "/", "_"])
         recs = gen.records(rng, delim, patterns=False, nrec=rng.choice([1, 2, 3]))
         mode = rng.choice(["pd", "file"])
@@ -55,13 +64,22 @@ class C16(SimpleProperty):
             good = gen.all_prefixes(recs) + ["unknown"]
         else:
             good = gen.curie_probes(rng, recs, delim, 6)
+        flags = {"s": rng.random() < 0.35, "p": rng.random() < 0.4, "amb": rng.random() < 0.3 and meth in ("compress", "expand")}
+        if flags["amb"]:
+            # ambiguous=True: the column may hold strings of the *target* kind (to be standardised, written with synonyms too)
+            # and strings that read both as a URI and as a CURIE (a URI prefix that is a CURIE of the converter)
+            if rng.random() < 0.5:
+                ps_ = gen.all_prefixes(recs)
+                extra = rec(rng.choice(["urn", "zz", "http"]), rng.choice(ps_) + delim + rng.choice(["", "x"]))
+                if uncps(extra["u"]) not in gen.all_uris(recs) and uncps(extra["p"]) not in ps_ and delim not in uncps(extra["p"]):
+                    recs = recs + [extra]
+            good = good + (gen.curie_probes(rng, recs, delim, 6) if meth == "compress" else gen.uri_probes(rng, recs, 6))
         good = [g for g in good if "\ud800" not in g] or ["x"]    # files cannot hold lone surrogates
         rows = []
         for _ in range(nrow):
             row = [rng.choice(CELLS) for _ in range(ncol)]
             row[col] = rng.choice(good) if rng.random() < 0.75 else rng.choice(CELLS)
             rows.append(row)
-        flags = {"s": rng.random() < 0.35, "p": rng.random() < 0.4, "amb": rng.random() < 0.3 and meth in ("compress", "expand")}
         case = {"records": recs, "delim": delim, "mode": mode, "meth": meth, "col": col, "rows": rows, **flags}
         if rng.random() < 0.4:
             # a long-lived converter: built from a part of the records, used for the same bulk operation once, then
@@ -94,6 +112,9 @@ class C16(SimpleProperty):
         return case
 
     def run_impl(self, case):
+        if case.get("csv"):
+            from .. import csvlayer
+            return csvlayer.run_python(case["csv"])
         import pandas as pd
         from curies import Converter
 
@@ -198,6 +219,9 @@ class C16(SimpleProperty):
             pass
 
     def request(self, case, impl):
+        if case.get("csv"):
+            from .. import csvlayer
+            return csvlayer.request(case["csv"])
         req = {"k": "bulk", "records": case["records"], "delim": cps(case["delim"]), "meth": case["meth"], "amb": case["amb"],
                "s": case["s"], "p": case["p"], "col": case["col"], "mode": case["mode"],
                "rows": [[cps(c) for c in r] for r in case["rows"]]}
@@ -209,6 +233,9 @@ class C16(SimpleProperty):
         return req
 
     def compare(self, case, impl, resp):
+        if case.get("csv"):
+            from .. import csvlayer
+            return csvlayer.compare(case["csv"], impl, resp)
         diffs = []
         fam = lambda e: "lib" if e in common.LIB_FAMILY else e
         if case["mode"] == "pd":
@@ -236,6 +263,8 @@ class C16(SimpleProperty):
         return diffs
 
     def laws(self, case, impl):
+        if case.get("csv"):
+            return []
         fails = []
         sc = impl["scalar"]
         col = case["col"]
@@ -273,15 +302,25 @@ class C16(SimpleProperty):
         return fails
 
     def tags(self, case, impl):
+        if case.get("csv"):
+            return ["csv-layer", f"delimiter={case['csv']['d']!r}"]
         kinds = ["raise" if "e" in x else ("none" if x["v"] is None else "value") for x in impl["scalar"]]
         return [case["mode"] + ":" + case["meth"], f"strict={case['s']},passthrough={case['p']},ambiguous={case['amb']}"] + \
             ["cell:" + k for k in kinds]
 
     def nontrivial(self, case, impl):
+        if case.get("csv"):
+            return True
         kinds = {("raise" if "e" in x else ("none" if x["v"] is None else "value")) for x in impl["scalar"]}
         return len(kinds) > 1 or "raise" in kinds
 
+    def evaluations(self, case):
+        return len(case["csv"]["texts"]) + len(case["csv"]["tables"]) if case.get("csv") else 1
+
     def readable(self, case, impl):
+        if case.get("csv"):
+            from .. import csvlayer
+            return csvlayer.readable(case["csv"], impl)
         flags = f"strict={case['s']}, passthrough={case['p']}, ambiguous={case['amb']}"
         recs = "; ".join(common.show_record(r) for r in case["records"])
         head = f"Converter([{recs}], delimiter={case['delim']!r})"
@@ -297,6 +336,8 @@ class C16(SimpleProperty):
                       f"bytes unchanged: {impl['unchanged']}", f"scalar results: {impl['scalar']!r}"]
 
     def reductions(self, case):
+        if case.get("csv"):
+            return
         rows = case["rows"]
         lo = 1 if case.get("header") else 0
         for i in range(len(rows) - 1, lo - 1, -1):
